@@ -1086,6 +1086,16 @@ def kar_templates(two_syllables=False, thorough=False):
     for pn, ptw, pun in prefixes:
         for name, tw, un in syllables:
             words.append((pn + ":" + name, ptw + tw, pun + un))
+    # consonant keys whose value is not one of the 36 plain letters: Assamese ৰ ৱ, and the decomposed spellings ড + ় , ঢ + ় , য + ়
+    # (symbol X; the reference speaks about them with automatic vowel forming off - with it on, the Unicode-order side itself
+    # turns the sign after such a letter into an independent vowel, on which the property text is silent)
+    for sn, pre, post, uni in signs:
+        if not pre:
+            continue
+        for follow in ([], [[("C", 1)]]):
+            tw = pre + [[("X", 0)]] + post + follow
+            un = [[("X", 0)]] + uni + follow
+            words.append(("start:X+%s%s" % (sn, "+C" if follow else ""), tw, un))
     if two_syllables:
         def shift(keys, d):
             return [[(x[0], x[1] + d) if isinstance(x, tuple) else x for x in k] for k in keys]
@@ -1111,6 +1121,19 @@ def make_kar_history(shape, prop_fn=None, constrain=None):
             for k in keys:
                 v = []
                 for x in k:
+                    if isinstance(x, tuple) and x[0] == "X":
+                        if x not in syms:
+                            b = z3.Bool("x%d_decomposed" % x[1])
+                            if st.choose([b, z3.Not(b)]) == 0:
+                                c = st.sym_char("x%d" % x[1], 0x980, 0x9FF)
+                                st.assume(zin(c, [0x09A1, 0x09A2, 0x09AF]))
+                                syms[x] = [c, 0x09BC]
+                            else:
+                                c = st.sym_char("x%d" % x[1], 0x980, 0x9FF)
+                                st.assume(zin(c, [0x09F0, 0x09F1]))
+                                syms[x] = [c]
+                        v.extend(syms[x])
+                        continue
                     if isinstance(x, tuple):
                         if x not in syms:
                             c = st.sym_char("%s%d" % (x[0].lower(), x[1]), 0x20, 0x9FF)
@@ -1125,6 +1148,8 @@ def make_kar_history(shape, prop_fn=None, constrain=None):
         twv, unv = val(tw), val(un)
         fixed_common = {"fixed_suggestion": False, "ansi": False, "fixed_numpad": False, "include_english": False,
                         "phonetic_suggestion": False, "smart_quote": False}
+        if any(isinstance(x, tuple) and x[0] == "X" for k in tw for x in k):
+            fixed_common["fixed_vowel"] = False
         cfgA, opts = mk_config(prog, st, dict(fixed_common, fixed_kar_order=True))
         fixedB = dict(fixed_common, fixed_kar_order=False)
         for o in ("fixed_vowel", "fixed_chandra", "fixed_kar", "fixed_old_reph"):
